@@ -70,6 +70,11 @@ class Supp:
                 return self._meta_target(rr)
         if m.op == "attr" and m.name == "shape":
             return self._source(m.obj)
+        if m.op == "call" and m.fn.op == "ref" and m.fn.ref.qual.rsplit(".", 1)[-1] in ("array", "asarray", "tuple", "list") and m.args:
+            return self._meta_target(m.args[0])
+        if m.op == "sub" and m.idx.op != "const":
+            # a selection of the entries of a shape: still sized by that source
+            return self._meta_target(m.obj)
         if m.op == "sub" and m.idx.op == "const" and m.idx.value == 0:
             # metadata(x)[0] is the shape
             return self._meta_target(m.obj)
@@ -79,6 +84,8 @@ class Supp:
         return TOP
 
     def _source(self, x):
+        if "others" in self.ans and x.op == "sub":
+            return self.of(x)
         if x.op == "arg" and isinstance(x.index, int):
             return frozenset([x.index])
         if x.op == "sym" and x.get("role") == "ans":
@@ -126,6 +133,8 @@ class Supp:
                 return a
             if a == b:
                 return a
+            if a is not TOP and b is not TOP:
+                return a | b  # an upper bound: whichever branch is taken, the support is within the union
             self.blame(t, "branches with different shape support")
             return TOP
         if o == "seq":
@@ -145,7 +154,9 @@ class Supp:
                 while base.op == "sub":
                     base = base.obj
                 if base.op == "rest":
-                    if t.idx.op == "sym" and t.idx.get("role") == "argnum":
+                    from ..terms import walk as _walk
+
+                    if t.idx.op != "slice" and any(x.op == "sym" and x.get("role") == "argnum" for x in _walk(t.idx)):
                         return frozenset(["argnum"])
                     if t.idx.op == "slice":
                         return frozenset(["others"])
